@@ -151,7 +151,11 @@ impl BufCheck {
         let prop = self.prop;
         let esz = std::mem::size_of::<T>();
         // Size: mostly k pages, sometimes a non-multiple (must be refused).
-        let pages = *src.pick(&[1usize, 1, 1, 2, 3, 5, 6, 7, 8, 2, 3]);
+        let pages = if crate::engine::deep() {
+            *src.pick(&[1usize, 1, 2, 3, 5, 6, 7, 8, 2, 3, 16, 33, 64])
+        } else {
+            *src.pick(&[1usize, 1, 1, 2, 3, 5, 6, 7, 8, 2, 3])
+        };
         let bad_size = src.chance(1, 12);
         let size = if bad_size {
             *src.pick(&[1000usize, 4097, 6144, 2048, 4095, 12289, 0])
@@ -767,7 +771,7 @@ impl Check for BufCheck {
     fn run(&self, src: &mut Src, ctx: &mut RunCtx) -> RunResult {
         let kn = Knobs {
             tag_heavy: self.prop == "C02",
-            max_ops: 60,
+            max_ops: if crate::engine::deep() { *src.pick(&[60usize, 60, 200, 600]) } else { 60 },
         };
         let solo = Solo::new();
         let r = solo.with(|| match src.below(10) {
